@@ -181,6 +181,17 @@ func (r *Run) quiet(method, tgt string) *Resp {
 	return r.send(&simnet.Request{Method: method, Target: tgt}, nil, "whole")
 }
 
+// quiet2 is quiet for a request with headers.
+func (r *Run) quiet2(req *simnet.Request) *Resp {
+	me := r.me()
+	saved := me.opFaults
+	me.opFaults = nil
+	defer func() { me.opFaults = saved }()
+	resp := r.send(req, nil, "whole")
+	r.noPanic(resp, req.Method+" "+req.Target)
+	return resp
+}
+
 func (r *Run) noPanic(resp *Resp, what string) {
 	if resp.Panic != nil {
 		r.setViol("no-panic", fmt.Sprintf("%s panics: %s", what, panicSig(resp)), "a response", fmt.Sprintf("%v\n%s", resp.Panic, trunc(resp.Stack, 3000)))
@@ -457,6 +468,9 @@ func (r *Run) opRmBucket(op *Op) {
 		resp = r.simple("DELETE", target(op.B, "", nil), op)
 	}
 	r.noPanic(resp, "delete bucket")
+	if force && r.me().faulted && r.faultedForceRm(resp, op.B) {
+		return
+	}
 	if r.faultedOut(resp, op.B) {
 		return
 	}
@@ -510,6 +524,90 @@ func (r *Run) opRmBucket(op *Op) {
 	delete(r.M.Buckets, op.B)
 	r.stats.Mutations++
 	r.ok("bucket.semantics")
+}
+
+// faultedForceRm judges a forced bucket deletion that was hit by an injected
+// (one-shot) disk fault.  On a file system the deletion is many unlinks, so a
+// refused one may have removed part of the bucket; what it may not do is alter
+// what it leaves: every object of the bucket is afterwards served exactly as
+// it was acknowledged - bytes, ETag, metadata - or it is gone.  The model
+// follows what is observed.
+func (r *Run) faultedForceRm(resp *Resp, bucket string) bool {
+	b := r.M.Buckets[bucket]
+	if b == nil {
+		return false
+	}
+	if b.Versioning != "" || r.Plan.Config.AutoBucket || r.Plan.Config.CrashAll {
+		// the generic relaxation: any object of the bucket may be gone
+		var kns []string
+		for kn := range b.Keys {
+			kns = append(kns, kn)
+		}
+		sort.Strings(kns)
+		return r.faultedOut(resp, bucket, kns...)
+	}
+	r.faultSeen = true
+	single := r.Plan.Config.Backend == "singlefs"
+	exists := single || r.quiet("HEAD", target(bucket, "", nil)).Status == 200
+	if resp.OK() && exists && !single {
+		r.fail("fault.clean", "a forced bucket deletion acknowledged although a disk call failed leaves the bucket in place "+r.bctx(), "404", "200")
+	}
+	if !exists {
+		delete(r.M.Buckets, bucket)
+		r.stats.Mutations++
+		r.ok("fault.clean")
+		return true
+	}
+	var kns []string
+	for kn, k := range b.Keys {
+		if !k.Indet {
+			kns = append(kns, kn)
+		}
+	}
+	sort.Strings(kns)
+	for _, kn := range kns {
+		old := liveOf(r.M, bucket, kn)
+		ks := r.observeKey(bucket, kn)
+		switch {
+		case ks.Status == 404:
+			if old != nil {
+				r.M.Delete(b, kn)
+				r.probe("refused forced deletion removed part of the bucket")
+			}
+		case resp.OK():
+			r.fail("fault.clean", "a forced deletion of the bucket's contents was acknowledged and an object is still served "+r.bctx(), "404", bucket+"/"+strconv.Quote(kn)+" "+ks.String())
+		case !entityMatches(ks, old):
+			r.fail("fault.clean", "an object that survives a forced bucket deletion refused after a disk error is not served as it was acknowledged "+r.bctx(), descEnt(old), bucket+"/"+strconv.Quote(kn)+" "+ks.String())
+		}
+	}
+	r.ok("fault.clean")
+	r.probe("forced bucket deletion hit by a disk fault: every object intact or gone")
+	r.logf("  -> hit by an injected disk fault: %s, bucket state resolved by observation", resp.String())
+	if resp.OK() {
+		return true
+	}
+	// The call that failed may have been the removal of a directory, which
+	// then stays behind without a key in it.  The client does what a client
+	// does with a 500: it sends the request again, and now nothing fails.
+	again := r.quiet2(&simnet.Request{Method: "DELETE", Target: target(bucket, "", nil), Headers: [][2]string{{"x-minio-force-delete", "true"}}})
+	if !again.OK() {
+		r.fail("fault.clean", "a forced bucket deletion refused after a disk error cannot be repeated "+r.bctx(), "204", again.String())
+	}
+	if single {
+		for k := range b.Keys {
+			delete(b.Keys, k)
+		}
+		if _, l := r.observeListing(bucket); len(l) > 0 {
+			r.fail("fault.clean", "the repeated forced deletion leaves objects behind "+r.bctx(), "empty listing", fmt.Sprint(l))
+		}
+	} else {
+		delete(r.M.Buckets, bucket)
+		if g := r.quiet("HEAD", target(bucket, "", nil)); g.Status != 404 {
+			r.fail("fault.clean", "the repeated forced deletion leaves the bucket in place "+r.bctx(), "404", g.String())
+		}
+	}
+	r.stats.Mutations++
+	return true
 }
 
 // opBulk fills a bucket with op.Max small objects through the Go Backend API
